@@ -389,7 +389,7 @@ fn do_resolve<Fd: AsFd, P: AsRef<Path>>(
                     // We need a limit on the number of symlinks we traverse to
                     // avoid hitting filesystem loops and DoSing.
                     symlink_traversals += 1;
-                    if symlink_traversals >= MAX_SYMLINK_TRAVERSALS {
+                    if symlink_traversals > MAX_SYMLINK_TRAVERSALS {
                         return Ok(PartialLookup::Partial {
                             handle: current,
                             remaining,
